@@ -269,6 +269,13 @@ class Models:
     def b_dict(self, v=None, **kw):
         ex = self.ex
         from . import loops
+        if isinstance(v, Sym) and v.kind == K.Dyn and not kw:
+            # dict(d) of a JSON-like mapping: an equal plain dict (Dyn values are compared by value, A-dyn)
+            J = K.dyn_sorts()[0]
+            if ex.run.decide(J.is_JDict(v.t), tag='dict_of_dyn'):
+                ex.run.assumed.add('A-dyn')
+                return v
+            raise RaiseEx(ExcVal('TypeError', origin='dict() of a non-mapping'))
         m = loops.map_of(ex, v) if v is not None else None
         if m is not None and not kw:
             return ex.run.alloc(HDict(sym=m))       # dict(mapping): a new dict with the same content (same insertion order)
@@ -803,6 +810,19 @@ class Models:
 
     def x_logging(self):
         return LoggingModule()
+
+    # ------------------------------------------------------------------ clock and user (A-time): opaque values
+    def x_getpass(self):
+        return GetpassModule()
+
+    def x_getpass_getuser(self):
+        return Builtin('getpass.getuser', lambda ex_, a, k: GetpassModule().m_getuser(ex_))
+
+    def x_datetime_datetime(self):
+        return DatetimeClass()
+
+    def x_pkg_resources_get_distribution(self):
+        return Builtin('pkg_resources.get_distribution', lambda ex_, a, k: DistributionObj())
 
     def x_math_isclose(self):
         def f(ex_, a, k):
@@ -1375,6 +1395,34 @@ class LoggerObj(ExtObj):
     m_debug = m_info = m_warning = m_error = m_exception = m_setLevel = m_addHandler = m_removeHandler = _noop
 
 
+TimeU = K.U('Time', plain=True)
+
+
+class GetpassModule(ExtObj):
+    def m_getuser(self, ex):
+        ex.run.assumed.add('A-time')
+        return Sym(K.Str, z3.String('getpass_user'))
+
+
+class DistributionObj(ExtObj):
+    def a_version(self, ex):
+        return Sym(K.Str, z3.String('package_version'))
+
+
+class DatetimeClass(ExtObj):
+    """datetime.datetime: now() is an opaque, fresh point in time; timestamp / fromtimestamp / str are uninterpreted"""
+
+    def m_now(self, ex, *a):
+        ex.run.assumed.add('A-time')
+        return ex.run.fresh(TimeU, 'now')
+
+    def m_timestamp(self, ex, t):
+        return Sym(K.Int, P.ufn('time_stamp', [TimeU.sort()], z3.IntSort())(P.lift(ex, t, TimeU)))
+
+    def m_fromtimestamp(self, ex, v, *a):
+        return Sym(TimeU, P.ufn('time_from_stamp', [z3.IntSort()], TimeU.sort())(P.int_t(ex, v)))
+
+
 class LoggingModule(ExtObj):
     DEBUG, INFO, WARNING = 10, 20, 30
 
@@ -1632,6 +1680,9 @@ def dyn_isinstance(ex, v, t):
         }
         if n in tbl:
             return Sym(K.Bool, tbl[n])
+        if n in ('collections.defaultdict', 'collections.OrderedDict'):
+            # dict subclasses: an instance is a mapping
+            return Sym(K.Bool, z3.And(J.is_JDict(v.t), P.ufn('dyn_isinstance_ext', [K.Dyn.sort(), z3.StringSort()], z3.BoolSort())(v.t, z3.StringVal(n))))
         if n in ('collections.abc.Iterable', 'typing.Iterable'):
             return Sym(K.Bool, z3.Or(J.is_JList(v.t), J.is_JDict(v.t), J.is_JStr(v.t), J.is_JRStr(v.t)))
         return Sym(K.Bool, P.ufn('dyn_isinstance_ext', [K.Dyn.sort(), z3.StringSort()], z3.BoolSort())(v.t, z3.StringVal(n)))
